@@ -1,4 +1,4 @@
-import SgVerif.C11.Lemmas
+import SgVerif.C11.Run7
 /-
 C11 — Actor lifecycle semantics.  Theorems over the model of Model.lean (a labelled transition system whose labels are
 the observable lines of a run; `step s l` is the list of states the line `l` may lead to, `[]` = not allowed).
@@ -91,24 +91,6 @@ theorem on_exit_wrong_order_refused (s s' : Sys) (a g : Nat) (t : Rat) (x0 : Act
 
 /-! ### time: kill timers, suspension, daemons -/
 
-theorem step_op_timeOk (s : Sys) (a i : Nat) (t : Rat) (sk : Bool) (h : step s (.op a i t sk) ≠ []) :
-    s.timeOk t = true := by
-  by_cases hc : s.timeOk t = true
-  · exact hc
-  · exfalso; apply h; simp [step, hc]
-
-theorem step_joined_timeOk (s : Sys) (a i : Nat) (t : Rat) (h : step s (.joined a i t) ≠ []) :
-    s.timeOk t = true := by
-  by_cases hc : s.timeOk t = true
-  · exact hc
-  · exfalso; apply h; simp [step, hc]
-
-theorem step_exitCb_timeOk (s : Sys) (a g : Nat) (t : Rat) (h : step s (.exitCb a g t) ≠ []) :
-    s.timeOk t = true := by
-  by_cases hc : s.timeOk t = true
-  · exact hc
-  · exfalso; apply h; simp [step, hc]
-
 /-- **kill time (one-step form).**  While an actor with kill time `T` is live, no line of any actor can carry a date
 later than `T`: the clock cannot pass `T` unless the actor dies — and the only thing the model lets it do at `T` when
 nothing else is due is to run its on_exit callbacks (`step`, case `x.killAt = some t`). -/
@@ -128,52 +110,11 @@ theorem kill_time_in_the_past_ignored (s s1 : Sys) (a i b : Nat) (t T : Rat) (x1
     applyOp s s1 a i t x1 (.killTime b T) false = some s1 := by
   simp [applyOp, hset.1, hset.2, hT]
 
-/-- a suspended actor cannot run (suspended at an earlier date) -/
-theorem canRun_suspended (x : Actor) (t : Rat) (hs : x.suspended = true) (ht : x.suspendedAt ≠ some t) :
-    x.canRun t = false := by
-  unfold Actor.canRun
-  simp [hs, ht]
-
-theorem assignHandle_self (s : Sys) (a : Nat) :
-    ((s.assignHandle a).acts a).suspended = (s.acts a).suspended ∧
-    ((s.assignHandle a).acts a).suspendedAt = (s.acts a).suspendedAt ∧
-    ((s.assignHandle a).acts a).life = (s.acts a).life ∧ ((s.assignHandle a).acts a).wake = (s.acts a).wake := by
-  unfold Sys.assignHandle
-  split
-  · rename_i c hc
-    by_cases h : a = c
-    · subst h; simp [upd]
-    · simp [upd, h]
-  · simp
-
 /-- **a suspended actor makes no progress (one-step form).**  No line of a live actor that was suspended at an earlier
 date is accepted: neither reaching its next op nor returning from a join, until a `resume` clears the flag. -/
-theorem suspended_makes_no_progress (s : Sys) (a : Nat) (t : Rat) (hl : (s.acts a).life = .live)
+theorem suspended_makes_no_progress_step (s : Sys) (a : Nat) (t : Rat) (hl : (s.acts a).life = .live)
     (hs : (s.acts a).suspended = true) (ht : (s.acts a).suspendedAt ≠ some t) (i : Nat) (sk : Bool) :
-    step s (.op a i t sk) = [] ∧ step s (.joined a i t) = [] := by
-  have h0 := assignHandle_self s a
-  constructor
-  · simp only [step]
-    split
-    · rfl
-    · split
-      · rfl
-      · split
-        · rfl
-        · have c1 : ((s.assignHandle a).acts a).canRun t = false := by
-            apply canRun_suspended
-            · rw [h0.1]; exact hs
-            · rw [h0.2.1]; exact ht
-          have c2 : ((s.assignHandle a).acts a).lastBreath t = false := by
-            unfold Actor.lastBreath; rw [h0.2.2.1, hl]; simp
-          simp [c1, c2]
-  · simp only [step]
-    split
-    · rfl
-    · have c1 : (s.acts a).canRun t = false := canRun_suspended _ t hs ht
-      have c2 : (s.acts a).lastBreath t = false := by
-        unfold Actor.lastBreath; rw [hl]; simp
-      simp [c1, c2]
+    step s (.op a i t sk) = [] ∧ step s (.joined a i t) = [] := suspended_step_none s a t hl hs ht i sk
 
 /-- `resume` of an actor that is not suspended changes nothing (`if (not suspended_) return;`) -/
 theorem resume_not_suspended_noop (s s1 : Sys) (a i b : Nat) (t : Rat) (x1 : Actor)
@@ -224,6 +165,73 @@ theorem join_wake_at_target_exit (acts : Nat → Actor) (d : Rat) (j i : Nat)
     ((runHidden acts d [.joinWake j i]).1 j).wake = some d := by
   simp [runHidden, hl, hj, Life.isLive, upd]
 
+/-! ### run-level theorems: all executions of the transition system (`Exec s ls s'` ⇔ `s' ∈ runAll [s] ls`), for every
+number of actors, every program, every sequence of lines -/
+
+/-- **kill_time_exact (run level).**  In every state `s` reachable from `init k progs` and for every actor `b` with a
+kill time `T` armed (`killAt = some T`):
+ * if `b` is live then `s.clock ≤ T` — no execution ever shows a live actor after its kill time;
+ * if `b` is dying, it died at a date `d ≤ T` (and `d` is in the past).
+Moreover, in every continuation `s ⟶* s'`: if `b` was live in `s` and is dying in `s'` with kill time `T`, its death date
+satisfies `s.clock ≤ d ≤ T`.  Hence an actor that has not ended when the clock reaches its kill time (`s.clock = T`)
+dies at exactly `T`; an actor that ends earlier (own end, kill, exit, maestro) dies at that earlier date.
+(`finish` is only accepted when nobody is live, so a run cannot end with the actor alive; that the model's kill-time
+branch of `step (.exitCb …)` is the transition taken at `T` is the one-step theorem `kill_time_exact_partial`.)
+A later `set_kill_time` on the same actor overwrites `killAt`: the statement is about the kill time in force. -/
+theorem kill_time_exact (k : Nat) (progs : Nat → List Op) (ls1 ls2 : List Label) (s s' : Sys)
+    (h1 : Exec (init k progs) ls1 s) (h2 : Exec s ls2 s') (b : Nat) (hb : b < s.k) :
+    (∀ T, (s.acts b).killAt = some T →
+      ((s.acts b).life = .live → s.clock ≤ T) ∧ (∀ d, (s.acts b).life = .dying d → d ≤ T ∧ d ≤ s.clock)) ∧
+    ((s.acts b).life = .live → ∀ T d, (s'.acts b).killAt = some T → (s'.acts b).life = .dying d → s.clock ≤ d ∧ d ≤ T) := by
+  have i1 : KInv s := kinv_exec h1 (kinv_init k progs)
+  have i2 : KInv s' := kinv_exec h2 i1
+  have hb' : b < s'.k := by rw [(exec_static h2).1]; exact hb
+  refine ⟨fun T hT => ⟨((i1 b hb).1 T hT).1, fun d hd => ⟨((i1 b hb).1 T hT).2 d hd, (i1 b hb).2 d hd⟩⟩, ?_⟩
+  intro hl T d hT hd
+  exact ⟨exec_death_after b h2 hl d hd, ((i2 b hb').1 T hT).2 d hd⟩
+
+/-- **suspended_makes_no_progress (run level, whole intervals).**  Take any execution `s ⟶* s'` that starts in a state
+where actor `a` is live and suspended (by the `suspend` issued at date `ts`), and during which no line executes a
+`resume a`.  If `a` is still alive at the end (it was not killed meanwhile) then
+ * it is still suspended, by the same suspension;
+ * every line of `a` in the execution (reaching an op, returning from a join) carries the date `ts` itself — the rest of
+   the slice it was scheduled for in the scheduling round of the `suspend`, which is what SimGrid lets it finish;
+ * and if the execution starts after that date (`ts < s.clock`): there is NO line of `a` at all, and its program counter
+   and its pending join are the same at the end as at the start.
+(If `a` is killed meanwhile, its on_exit lines are the only ones it produces: `Actor.die` clears `suspended`.) -/
+theorem suspended_makes_no_progress (s s' : Sys) (ls : List Label) (a : Nat) (ts : Rat) (h : Exec s ls s')
+    (hl : (s.acts a).life = .live) (hs : (s.acts a).suspended = true) (hat : (s.acts a).suspendedAt = some ts)
+    (hnr : NoResume s a ls) (hl' : (s'.acts a).life = .live) :
+    (s'.acts a).suspended = true ∧ (s'.acts a).suspendedAt = some ts ∧
+    (∀ l, l ∈ ls → ∀ t, OwnLine a l t → t = ts) ∧
+    (ts < s.clock → (s'.acts a).pc = (s.acts a).pc ∧ (s'.acts a).inJoin = (s.acts a).inJoin ∧
+      ∀ l, l ∈ ls → ∀ t, ¬ OwnLine a l t) :=
+  exec_suspended a ts h hl hs hat hnr hl'
+
+/-- **daemons_killed_when_last_nondaemon_ends (run level).**  In every execution that starts in a state where only
+daemons remain and at least one of them is live (`daemonCond`): the clock cannot leave that date before the system has
+gone through a state, at that very date, in which either no present actor is live any more — every daemon has been
+killed (dying or dead) at the date the last regular actor ended — or a regular (non-daemon) actor is present again
+(created by a daemon in the same scheduling round, which legitimately keeps the daemons alive). -/
+theorem daemons_killed_when_last_nondaemon_ends (s s' : Sys) (ls : List Label) (h : Exec s ls s')
+    (hd : s.daemonCond = true) (hlt : s.clock < s'.clock) :
+    ∃ l1 l2 sm, ls = l1 ++ l2 ∧ Exec s l1 sm ∧ Exec sm l2 s' ∧ sm.clock = s.clock ∧
+      ((∀ i, i < sm.k → Present sm i → (sm.acts i).life ≠ .live) ∨
+       (∃ i, i < sm.k ∧ Present sm i ∧ (sm.acts i).daemon = false)) := by
+  obtain ⟨l1, l2, sm, e, x1, x2, x3, x4⟩ := exec_daemon h hd hlt
+  exact ⟨l1, l2, sm, e, x1, x2, x3, not_daemonCond sm x4⟩
+
+/-- … **and in pid order**: an on_exit callback of an actor killed by maestro while it was blocked (`byMaestro`, no
+last breath) is only accepted when no maestro-killed blocked actor with a smaller pid still has callbacks to run -/
+theorem maestro_kills_in_pid_order (s : Sys) (a g : Nat) (t d : Rat) (hl : (s.acts a).life = .dying d)
+    (hg : (s.acts a).ghost = false) (hm : (s.acts a).byMaestro = true) (hb : (s.acts a).breath = false)
+    (h : step s (.exitCb a g t) ≠ []) : s.lowerMaestroPending a = false := by
+  by_cases hp : s.lowerMaestroPending a = true
+  · exfalso
+    apply h
+    simp [step, hl, hg, hm, hb, hp]
+  · simpa using hp
+
 /-! ### Non-vacuity: a real log (props/C11/corpus.txt, first case) is accepted by the model, line by line -/
 def exProgs : Nat → List Op
   | 0 => [.onExit 1, .onExit 2, .create 1, .sleep 1, .kill 1, .sleep 1]
@@ -242,5 +250,52 @@ example : (runAll [init 1 (fun _ => [.killTime 0 2, .sleep 4, .log])]
     [.op 0 0 0 false, .op 0 1 0 false, .exitCb 0 0 2, .finish 2]).isEmpty = false := by decide +kernel
 example : (runAll [init 1 (fun _ => [.killTime 0 2, .sleep 4, .log])]
     [.op 0 0 0 false, .op 0 1 0 false, .op 0 2 4 false]).isEmpty = true := by decide +kernel
+
+/-- non-vacuity of `kill_time_exact`: actor 0 arms its kill time 2 at date 0 and sleeps until 4: reachable state with
+the timer armed, the actor live; and a continuation in which it is dying — at date 2 -/
+example : ∃ s s', Exec (init 1 (fun _ => [.killTime 0 2, .sleep 4, .log])) [.op 0 0 0 false, .op 0 1 0 false] s ∧
+    Exec s [.exitCb 0 0 2] s' ∧ 0 < s.k ∧ (s.acts 0).life = .live ∧ (s.acts 0).killAt = some 2 ∧
+    (s'.acts 0).killAt = some 2 := by
+  have h : ((runAll [init 1 (fun _ => [.killTime 0 2, .sleep 4, .log])] [.op 0 0 0 false, .op 0 1 0 false]).any (fun s =>
+      (step s (.exitCb 0 0 2)).any (fun s' =>
+        decide (0 < s.k ∧ (s.acts 0).life = .live ∧ (s.acts 0).killAt = some 2 ∧ (s'.acts 0).killAt = some 2)))) = true := by
+    decide +kernel
+  obtain ⟨s, hs, hp⟩ := List.any_eq_true.mp h
+  obtain ⟨s', hs', hq⟩ := List.any_eq_true.mp hp
+  obtain ⟨s0, hs0, he⟩ := (mem_runAll_iff _ _ _).mp hs
+  simp only [List.mem_cons, List.mem_nil_iff, or_false] at hs0
+  subst hs0
+  have hq' := of_decide_eq_true hq
+  exact ⟨s, s', he, Exec.cons hs' (Exec.nil _), hq'.1, hq'.2.1, hq'.2.2.1, hq'.2.2.2⟩
+
+/-- non-vacuity of `suspended_makes_no_progress`: actor 0 creates actor 1 (which sleeps 2), suspends it at date 1 and
+goes on; hypotheses hold in the state after the `suspend`, with a continuation in which actor 1 is still live -/
+example : ∃ s s', Exec (init 2 (fun i => if i = 0 then [.create 1, .sleep 1, .suspend 1, .sleep 1, .log] else [.sleep 2, .log]))
+      [.op 0 0 0 false, .op 1 0 0 false, .op 0 1 0 false, .op 0 2 1 false] s ∧
+    Exec s [.op 0 3 1 false, .op 0 4 2 false] s' ∧
+    (s.acts 1).life = .live ∧ (s.acts 1).suspended = true ∧ (s.acts 1).suspendedAt = some 1 ∧ (s'.acts 1).life = .live := by
+  have h : ((runAll [init 2 (fun i => if i = 0 then [.create 1, .sleep 1, .suspend 1, .sleep 1, .log] else [.sleep 2, .log])]
+      [.op 0 0 0 false, .op 1 0 0 false, .op 0 1 0 false, .op 0 2 1 false]).any (fun s =>
+      (runAll [s] [.op 0 3 1 false, .op 0 4 2 false]).any (fun s' =>
+        decide ((s.acts 1).life = .live ∧ (s.acts 1).suspended = true ∧ (s.acts 1).suspendedAt = some 1 ∧
+          (s'.acts 1).life = .live)))) = true := by
+    decide +kernel
+  obtain ⟨s, hs, hp⟩ := List.any_eq_true.mp h
+  obtain ⟨s', hs', hq⟩ := List.any_eq_true.mp hp
+  obtain ⟨s0, hs0, he⟩ := (mem_runAll_iff _ _ _).mp hs
+  simp only [List.mem_cons, List.mem_nil_iff, or_false] at hs0
+  subst hs0
+  obtain ⟨s1, hs1, he'⟩ := (mem_runAll_iff _ _ _).mp hs'
+  simp only [List.mem_cons, List.mem_nil_iff, or_false] at hs1
+  rw [hs1] at he'
+  have hq' := of_decide_eq_true hq
+  exact ⟨s, s', he, he', hq'.1, hq'.2.1, hq'.2.2.1, hq'.2.2.2⟩
+
+/-- non-vacuity of `daemons_killed_when_last_nondaemon_ends`: actor 1 daemonizes and sleeps for ever; when actor 0 ends
+at date 1 only the daemon remains (`daemonCond`), and the run goes on to its `finish` at the same date -/
+example : ((runAll [init 2 (fun i => if i = 0 then [.create 1, .sleep 1] else [.daemonize, .sleep 8, .log])]
+      [.op 0 0 0 false, .op 1 0 0 false, .op 1 1 0 false, .op 0 1 0 false, .exitCb 0 0 1]).any
+        (fun s => s.daemonCond)) = true := by
+  decide +kernel
 
 end SgVerif.C11
